@@ -7,6 +7,7 @@ https://www.bundesbank.de/resource/blob/603320/16a80c739bbbae592ca575905975c2d0/
 
 from __future__ import annotations
 
+import threading
 from dataclasses import dataclass
 from itertools import cycle
 from typing import ClassVar
@@ -41,8 +42,25 @@ class WeightedModulus(checksum.Algorithm):
     weights: ClassVar[list[int]]
 
     def __init__(self) -> None:
-        self.weighted_sum: int = 0
-        self.remainder: int = 0
+        # The algorithm objects are process-wide singletons: keep the intermediate results of a
+        # computation per thread, so that concurrent validations cannot see each other's values.
+        self._scratch = threading.local()
+
+    @property
+    def weighted_sum(self) -> int:
+        return getattr(self._scratch, "weighted_sum", 0)
+
+    @weighted_sum.setter
+    def weighted_sum(self, value: int) -> None:
+        self._scratch.weighted_sum = value
+
+    @property
+    def remainder(self) -> int:
+        return getattr(self._scratch, "remainder", 0)
+
+    @remainder.setter
+    def remainder(self, value: int) -> None:
+        self._scratch.remainder = value
 
     def compute(self, components: list[str]) -> str:
         [account_code] = components
